@@ -15,6 +15,11 @@ CHECKS = {
    note="Trusted: the alphabet (engine/val), the transcription of docs/runtime-types.md in checks/c10 (refConv/refFalsy), the harness snapshot function. Values outside the alphabet are not covered.",
    technique="bounded exhaustive enumeration of value pairs/singletons against algebraic laws and a reference table",
    design="4/C10"),
+ "C01": dict(
+   text="Bounded exhaustive differential check of the real compile-and-run path (Script.Add/Compile/RunContext/GetAll) against a definitional reference interpreter written from the documentation: every binary operator x every ordered pair of a 75-value alphabet (host-input and literal form), every unary/ternary/selector/index/slice/index-assignment shape, every builtin x every argument tuple of arity 0..2 (3..4 over sub-alphabets), and every program of the cflow/func/stmt/alias families below a statement budget (control flow x closures x variadic/spread x all compound assignments x for-in forms x shadowing x aliasing-revealing write sequences, at top level and inside functions). Outcome class and all globals (also at the failure point) must agree on every element.",
+   note="Trusted: engine/ref (principled rules from docs/*.md; pinned rules marked N: where the docs are silent, which only detect regressions), the generators, the snapshot function. Excluded as the property says: map iteration order, append capacity sharing, cyclic containers, clock/random/OS; format() is C17's.",
+   technique="bounded exhaustive enumeration of programs and inputs against a reference interpreter (small-scope differential model checking)",
+   engine="ref", design="4/C01"),
  "C02": dict(
    text="Explicit-state exploration of every compiled function (main, literals, closures, module functions) of every program of the cflow/func families (all statement sequences below a size budget over return/break/continue x loop forms x if/else x && || ?: x closures x recursion x variadic/spread calls, in main/function/closure/module placement) as a transition system over (pc, operand-stack height): structural invariants evaluated in every abstract state (operands in range, jumps on instruction boundaries, one non-negative height per pc on all paths, every path ends in RET/SUSPEND, tail-call shaped calls carry no residue). The model is bound to the implementation by the per-instruction VM probe: on every executed instruction of every probed run the real height must equal the model height. All paths of all functions are covered, not the executed one.",
    note="Trusted: the stack-effect table in engine/bcv (validated against the VM on every executed instruction), the hook accessors. Programs outside the family bounds are not covered.",
@@ -66,6 +71,7 @@ def main():
         },
         "engines": [
             {"name": "bcv", "path": "engine/bcv, engine/gen", "serves_properties": ["C02", "C03", "C12"], "kind_free_text": "bytecode abstract machine: explicit-state search over (pc,height) and over optimised/unoptimised pc pairs; program families enumerated exhaustively by replayed choice trees"},
+            {"name": "ref", "path": "engine/ref, engine/gen", "serves_properties": ["C01"], "kind_free_text": "definitional reference interpreter over the generator AST + exhaustive program families"},
             {"name": "enum", "path": "engine/report, engine/val, engine/tg", "serves_properties": sorted(CHECKS), "kind_free_text": "bounded exhaustive enumeration driver: deterministic case lists, parallel execution on the real implementation, violation grouping by signature, known-finding matching, evidence/replay writers"},
         ],
         "checks": checks,
